@@ -97,6 +97,7 @@ def main():
         return
     skip = "--skip-tests" in sys.argv
     names = [a for a in sys.argv[1:] if not a.startswith("--")] or sorted(os.path.basename(d.rstrip("/")) for d in glob.glob(os.path.join(RDIR, "*/")) if os.path.exists(os.path.join(d, "patch.diff")))
+    names = [n for n in names if os.path.exists(os.path.join(RDIR, n, "patch.diff"))]
     workers = max(1, min(int(os.environ.get("AUDIT_WORKERS", "8")), len(names)))
     copies, vdirs = [], []
     try:
